@@ -17,7 +17,6 @@ For every (callable, argument form) case the runner
 
 Only random.Random(seed + k) / np.random.RandomState(seed + k) created locally are used.
 """
-import copy
 import importlib
 import inspect
 import random
@@ -171,6 +170,18 @@ def _is_pyins_obj(o):
     return (type(o).__module__ or '').startswith('pyins') and hasattr(o, '__dict__')
 
 
+def _vars(o):
+    """Attributes of a pyins object.  strapdown.Integrator keeps np.empty work buffers of
+    10000 rows: only the rows filled so far (len(trajectory)) are state."""
+    d = dict(vars(o))
+    if type(o).__name__ == 'Integrator' and isinstance(d.get('trajectory'), pd.DataFrame):
+        n = len(d['trajectory'])
+        for k in ('lla', 'velocity_n', 'mat_nb'):
+            if isinstance(d.get(k), np.ndarray):
+                d[k] = d[k][:n]
+    return d
+
+
 def _idx_snap(ix):
     a = ix.to_numpy()
     body = tuple(map(repr, a.tolist())) if a.dtype == object else a.tobytes()
@@ -223,7 +234,7 @@ def snap(o, args_mode=False, depth=0):
         return ('rot', _arr_body(np.asarray(o.as_quat())), np.shape(o.as_quat()))
     if _is_pyins_obj(o):
         return ('obj', type(o).__name__,
-                tuple((k, snap(v, args_mode, depth + 1)) for k, v in sorted(vars(o).items())))
+                tuple((k, snap(v, args_mode, depth + 1)) for k, v in sorted(_vars(o).items())))
     if isinstance(o, (types.FunctionType, types.MethodType, type)):
         return ('callable', getattr(o, '__qualname__', repr(o)))
     return ('repr', type(o).__name__, repr(o))
@@ -270,7 +281,7 @@ def collect_refs(o, path='', out=None, depth=0):
         for k, v in enumerate(o):
             collect_refs(v, f"{path}[{k}]", out, depth + 1)
     elif _is_pyins_obj(o):
-        for k, v in sorted(vars(o).items()):
+        for k, v in sorted(_vars(o).items()):
             collect_refs(v, f"{path}.{k}" if path else k, out, depth + 1)
     return out
 
@@ -309,7 +320,7 @@ def leaves(o, path='', out=None, depth=0):
     elif isinstance(o, np.random.RandomState):
         pass
     elif _is_pyins_obj(o):
-        for k, v in sorted(vars(o).items()):
+        for k, v in sorted(_vars(o).items()):
             if not k.startswith('_'):
                 leaves(v, f"{path}.{k}", out, depth + 1)
     else:
@@ -1454,7 +1465,7 @@ def b_sim_motion(D):
                                                                          ctx.info['n']),
                                     tol=1e-9, scale=1.0,
                                     finding=(FINDING_GENERATE_IMU_TIME_LIST
-                                             if tk == 'list' and opt != 'lla0+vel' else None)))
+                                             if tk == 'list' else None)))
     nm = 'sim.generate_sine_velocity_motion'
     for st in ('rate', 'increment'):
         for kind in ('list', 'tuple', 'ndarray', 'strided', 'pandas'):
@@ -1466,7 +1477,8 @@ def b_sim_motion(D):
                     a = dict(lla0=c(D.lla0, DOC_LLA), velocity_mean=c(D.vmean, DOC_VEL),
                              velocity_change_amplitude=(c(D.vamp, DOC_VEL) if amp == 'vector' else
                                                         c(0.75) if kind == 'ndarray' else 0.75),
-                             velocity_change_phase_offset=c([10.0, 80.0, 30.0], DOC_VEL))
+                             velocity_change_phase_offset=(c([10.0, 80.0, 30.0]) if kind != 'pandas'
+                                                           else [10.0, 80.0, 30.0]))
                     n = len(np.arange(0, 12.0, D.dt))
                     return Ctx(a, lambda: sim.generate_sine_velocity_motion(
                         D.dt, 12.0, a['lla0'], a['velocity_mean'], a['velocity_change_amplitude'],
@@ -1805,8 +1817,7 @@ def _filter_schema(kind, c):
         pr += sch_table(res['trajectory_sd'], DOC_TRAJECTORY_ERROR, None, NA, None, 'trajectory_sd')
         n = len(res['trajectory_sd'])
         for k, st in (('gyro', gs), ('gyro_sd', gs), ('accel', as_), ('accel_sd', as_)):
-            pr += sch_table(res[k], st if (st or k.endswith('_sd') or kind == 'feedforward') else None,
-                            res['trajectory_sd'].index, NA, n, k)
+            pr += sch_table(res[k], st, res['trajectory_sd'].index, NA, n, k)
         names = dict(pos='Position', vel='NedVelocity', body='BodyVelocity')
         wantk = [names[m] for m in (c['meas'] or ())]
         if list(res['innovations'].keys()) != wantk:
@@ -1855,8 +1866,7 @@ def b_filters(D):
                     return Ctx(watch, call, exempt=FILTER_EXEMPT)
                 exact = variant in ('plain', 'reused', 'polluted')
                 out.append(Case(nm, f"{c['tag']}|{variant}", build,
-                                group=f"{nm}|{c['tag']}|{'exact' if exact else variant}"
-                                if variant in ('plain', 'reused', 'polluted') else f"{nm}|{c['tag']}|exact",
+                                group=f"{nm}|{c['tag']}",
                                 tol=0 if exact else 1e-7, group_kind='determinism' if exact else 'forms',
                                 schema=_filter_schema(kind, c), heavy=True, repeat=(variant == 'plain')))
     return out
@@ -2112,8 +2122,47 @@ class Runner:
         return D, cases
 
 
+class _SingleThreadBlas:
+    """Best effort: run the bundled OpenBLAS single-threaded while the checks run (the matrices
+    are tiny; on a loaded machine the thread pool makes a filter run 15x slower).  Restored on exit."""
+    def __enter__(self):
+        self.saved = []
+        try:
+            import ctypes
+            P()                                   # load pyins (numpy + scipy BLAS) before scanning
+            import scipy.linalg                   # noqa
+            libs = sorted({l.split()[-1] for l in open('/proc/self/maps') if 'openblas' in l})
+            for p in libs:
+                L = ctypes.CDLL(p)
+                for pre in ('scipy_', ''):
+                    for suf in ('', '64_', '_64_'):
+                        g, s_ = pre + 'openblas_get_num_threads' + suf, pre + 'openblas_set_num_threads' + suf
+                        if hasattr(L, g) and hasattr(L, s_):
+                            self.saved.append((getattr(L, s_), int(getattr(L, g)())))
+                            getattr(L, s_)(1)
+                            break
+                    else:
+                        continue
+                    break
+        except Exception:
+            pass
+        return self
+
+    def __exit__(self, *a):
+        for setter, n in self.saved:
+            try:
+                setter(n)
+            except Exception:
+                pass
+
+
 def run_dynamic(r, n_rounds=1):
     """Run the dynamic validation; returns the number of distinct failing (callable, kind)."""
+    with _SingleThreadBlas():
+        return _run_dynamic(r, n_rounds)
+
+
+def _run_dynamic(r, n_rounds=1):
     t0 = time.time()
     g_start = _global_state()
     R = Runner(r, r.seed, n_rounds, verbose=bool(getattr(r, 'verbose', False)))
